@@ -49,9 +49,20 @@ UdpBlockHistories ==
       \o [i \in 1..n |-> [op |-> "reply", tx |-> "name:n" \o ToString(i) \o ".", kind |-> "ok"]] \o <<Drain>>
       : k \in 1..2, n \in 1..3}
 
+(* answers of unequal size on one connection: after a whole small answer has been consumed the unconsumed tail of the
+   next, larger answer is longer than the consumed prefix (the input buffer then moves overlapping bytes); also the
+   larger answer first; every split point and the fixed chunk sizes *)
+RN(t, n) == R(t, "ok") @@ [n |-> n]
+MixedHistories ==
+  LET Chops == {<<[op |-> "chunking", size |-> c]>> : c \in ChunkSizes}
+               \cup {<<[op |-> "chunking", size |-> 1000], [op |-> "splitat", at |-> p]>> : p \in 1..SplitMax}
+      Sizes == {<<1, 12>>, <<12, 1>>, <<1, 5, 12>>}
+  IN {Queries(1, Len(s)) \o <<Drain>> \o chop \o [i \in 1..Len(s) |-> RN(i, s[i])] \o <<Drain>> : s \in Sizes, chop \in Chops}
+
 Histories ==
   IF Mode = "udp" THEN UdpHistories \cup UdpBlockHistories
   ELSE IF Mode = "tcpclose" THEN CloseHistories
+  ELSE IF Mode = "tcpmixed" THEN MixedHistories
   ELSE LET Ws == SeqsUpTo(WAlpha, WLen)
            Chops == {<<>>} \cup {<<[op |-> "chunking", size |-> c]>> : c \in ChunkSizes}
                           \cup {<<[op |-> "chunking", size |-> 1000], [op |-> "splitat", at |-> p]>> : p \in 1..SplitMax}
